@@ -31,15 +31,19 @@ META = dict(
          'byte for byte, that every variable is exported (visible in the '
          'child), and that a reference to a variable defined earlier in the '
          'section yields that variable\'s value - for each of the orders of '
-         'definition.',
+         'definition. Obligation tilde: ten values that start with "~" '
+         '(~, ~/bar baz, path components with quotes, "&", ";", '
+         'parentheses, glob characters, "#", unicode) must arrive as $HOME '
+         'followed by the rest of the value, byte for byte.',
     note='the values and bash are concrete; values with "$", backquote, '
-         'backslash, double quote or a leading "~" are shell syntax by '
+         'backslash or double quote are shell syntax by '
          'design (the writer wraps values verbatim in double quotes) and '
          'outside the property\'s premise.',
     functions=['JobFileWriter._write_runtime_environment',
                'JobFileWriter._get_variable_value_definition'],
     bounds=['24 literal values x 24 x 2 reference forms x order of the first '
-            'two variables (quick: 12 x 12)'],
+            'two variables (quick: 12 x 12)', '10 tilde forms x 24 (quick 3) '
+            'second values'],
     stubs=['the rest of the job script (only the user-environment function '
            'is evaluated)'],
     assumptions=['bash is the job shell'],
@@ -53,6 +57,11 @@ VALUES = [
     '{a,b}', '<in >out', 'a~b', '-n', '', 'x  y', "''",
 ]
 REFS = ['$A-x', 'pre ${A} post']
+# '~' forms: the writer leaves the leading ~[user]/ outside the quotes so
+# that the shell expands it, and quotes the rest
+HOME = '/tmp/cylc verif home'
+TILDES = ['~', '~/bar', '~/bar baz', "~/a'b'/c", '~/R&D/results', '~/x;y/z',
+          '~/a/b c/d', '~/(x)/*', '~/a#b/c d', '~/é/☃']
 
 
 def _run(i, j, r, swap):
@@ -92,6 +101,44 @@ def _run(i, j, r, swap):
     return got.get('C') == want_c
 
 
+def _tilde(ti, j):
+    value = TILDES[ti]
+    job_conf = {'environment': {'T': value, 'B': VALUES[j]}, 'param_var': {}}
+    buf = io.StringIO()
+    JobFileWriter._write_runtime_environment(buf, job_conf)
+    script = ('set -eu\n' + buf.getvalue()
+              + '\ncylc__job__inst__user_env\nexec env -0\n')
+    with tempfile.NamedTemporaryFile('w', suffix='.sh', delete=False) as f:
+        f.write(script)
+        path = f.name
+    try:
+        out = subprocess.run(
+            ['bash', '--noprofile', '--norc', path], capture_output=True,
+            env={'PATH': os.environ.get('PATH', '/usr/bin:/bin'),
+                 'HOME': HOME}, timeout=30)
+    finally:
+        os.unlink(path)
+    if out.returncode != 0:
+        return False
+    got = {}
+    for item in out.stdout.split(b'\0'):
+        if b'=' in item:
+            k, v = item.split(b'=', 1)
+            got[k.decode()] = v.decode('utf-8', 'replace')
+    return got.get('T') == HOME + value[1:] and got.get('B') == VALUES[j]
+
+
+def tilde(ti: int, j: int) -> bool:
+    """
+    pre: 0 <= ti < len(TILDES) and 0 <= j < len(VALUES)
+    pre: SLICE.get('full', True) or j in (0, 1, 8)
+    post: _
+    """
+    ti, j = fork_int(ti, 0, len(TILDES) - 1), fork_int(j, 0, len(VALUES) - 1)
+    with concrete():
+        return _tilde(ti, j)
+
+
 def exported(i: int, j: int, r: int, swap: bool) -> bool:
     """
     pre: sl(r=r, swap=swap)
@@ -111,7 +158,8 @@ def OBLIGATIONS(tier):
     return [Ob(f'exported[ref={REFS[r]},swap={int(s)}]', 'exported',
                timeout=t, twin=(r == 0 and not s),
                slice={'r': r, 'swap': s, 'full': big})
-            for r in range(2) for s in (False, True)]
+            for r in range(2) for s in (False, True)] + [
+        Ob('tilde', 'tilde', timeout=t, slice={'full': big})]
 
 
 def VALIDATE():
@@ -121,4 +169,5 @@ def VALIDATE():
     assert f('foo bar', {}) == '"foo bar"'
     assert f('~foo/bar baz', {}) == '~foo/"bar baz"'
     assert _run(0, 1, 0, False) and _run(8, 4, 1, True)
-    return n + 4
+    assert _tilde(0, 0) and _tilde(2, 1)
+    return n + 6
